@@ -1153,7 +1153,25 @@ def m_partial_cmp_to_ord(dex, fn, body, st, c, args, depth):
     yield st, sym(f"cmp({show(args[0])},{show(args[1])})"), False
 
 
-DEFAULT_MODELS = {}
+def m_false(dex, fn, body, st, c, args, depth):
+    yield st, FALSE, False
+
+
+def m_vec_from_box(dex, fn, body, st, c, args, depth):
+    """`vec![a, b, c]` lowering: Box::new_uninit(), a store of the array through the box pointer, box_assume_init_into_vec_unsafe(box)."""
+    key = show(args[0])
+    for e in reversed(st.effects):
+        if e[0] == "store" and show(e[1]).startswith(key):
+            yield st, ("adt", "alloc::vec::Vec", None, (("0", e[3]),)), False
+            return
+    yield st, dex.opaque_call(st, "alloc::boxed::box_assume_init_into_vec_unsafe", args, c), False
+
+
+# tracing's `level_enabled!` test: with it false the whole event!/span! expansion is skipped (logging has no effect on results)
+DEFAULT_MODELS = {
+    "<tracing_core::metadata::Level as core::cmp::PartialOrd<tracing_core::metadata::LevelFilter>>::le": m_false,
+    "alloc::boxed::box_assume_init_into_vec_unsafe": m_vec_from_box,
+}
 
 TRAIT_MODELS = {
     ("core::cmp::PartialEq", "eq"): m_eq,
